@@ -208,12 +208,16 @@ var shapesQuick = [][2]int{{2, 6}, {3, 4}, {5, 3}, {8, 2}, {16, 1}, {2, 1}}
 var shapesThorough = [][2]int{{2, 50}, {4, 25}, {8, 12}, {16, 6}, {16, 1}, {3, 7}, {5, 5}, {12, 3}, {2, 1}, {7, 9}}
 
 func TestRecord(t *testing.T) {
-	path := os.Getenv("VERIF_TRACE")
-	if path == "" {
+	if os.Getenv("VERIF_TRACE") == "" {
 		t.Skip("VERIF_TRACE not set")
 	}
 	res := &abs.Result{}
-	defer res.Write(t)
+	doRecord(t, res)
+	res.Write(t)
+}
+
+func doRecord(t *testing.T, res *abs.Result) {
+	path := os.Getenv("VERIF_TRACE")
 	if _, err := initInMemory(); err != nil {
 		res.Fatal = err.Error()
 		return
@@ -231,7 +235,7 @@ func TestRecord(t *testing.T) {
 	if abs.Tier() == "thorough" {
 		shapes = shapesThorough
 	}
-	corrupt := os.Getenv("VERIF_CORRUPT")
+	corrupt := os.Getenv("VERIF_CORRUPT_TRACE")
 	var variants []string
 	for _, k := range []string{"consul/none", "etcd/none", "memberlist/none", "consul/memberlist", "memberlist/consul"} {
 		variants = append(variants, variantsOf[k]...)
@@ -303,6 +307,7 @@ func TestRecord(t *testing.T) {
 		}
 	}
 	res.AddExtra("recorded_per_mode", perMode)
+	res.AddExtra("recorded", w.N)
 }
 
 func traceNontrivial(tr trace) bool {
